@@ -18,6 +18,10 @@ type IndividualNode struct {
 	// cacheMutex guards the cached families, spouses and unique identifiers
 	// when they are looked up from several goroutines.
 	cacheMutex sync.Mutex
+
+	// familyEdits is the Document.familyEdits that the cached families and
+	// spouses were looked up at.
+	familyEdits int
 }
 
 // SpouseChildren connects a single spouse to a set of children. The children
@@ -33,7 +37,7 @@ type SpouseChildren map[*IndividualNode]ChildNodes
 func newIndividualNode(document *Document, pointer string, children ...Node) *IndividualNode {
 	return &IndividualNode{
 		newSimpleDocumentNode(document, TagIndividual, "", pointer, children...),
-		false, false, nil, nil, nil, sync.Mutex{},
+		false, false, nil, nil, nil, sync.Mutex{}, 0,
 	}
 }
 
@@ -87,6 +91,8 @@ func (node *IndividualNode) Spouses() (spouses IndividualNodes) {
 		return nil
 	}
 
+	node.forgetFamiliesIfEdited()
+
 	node.cacheMutex.Lock()
 	if node.cachedSpouses {
 		defer node.cacheMutex.Unlock()
@@ -134,6 +140,8 @@ func (node *IndividualNode) Families() (families FamilyNodes) {
 	if node == nil {
 		return nil
 	}
+
+	node.forgetFamiliesIfEdited()
 
 	node.cacheMutex.Lock()
 	if node.cachedFamilies {
@@ -900,6 +908,25 @@ func (node *IndividualNode) UniqueIdentifiers() *StringSet {
 	}
 
 	return cached
+}
+
+// forgetFamiliesIfEdited drops the cached families and spouses when the members
+// of any family of the document have changed since they were looked up.
+func (node *IndividualNode) forgetFamiliesIfEdited() {
+	if node.document == nil {
+		return
+	}
+
+	node.cacheMutex.Lock()
+	defer node.cacheMutex.Unlock()
+
+	if node.familyEdits != node.document.familyEdits {
+		node.familyEdits = node.document.familyEdits
+		node.cachedFamilies = false
+		node.cachedSpouses = false
+		node.families = nil
+		node.spouses = nil
+	}
 }
 
 func (node *IndividualNode) resetCache() {
